@@ -170,9 +170,9 @@ def make_program(idx, kind, ca, structure, feats, flags, validators=True):
                         "validators": validators and ikind == "dataclass"})
         if structure == "nested":
             holder = HOLDER[idx % len(HOLDER)]
-            fields.append(mk_field(holder, True, next(fid), "field" if kind == "dataclass" else "annotated", role="nested", inner=inner_name))
+            fields.append(mk_field(holder, total if kind == "typeddict" else True, next(fid), "field" if kind == "dataclass" else "annotated", role="nested", inner=inner_name))
         else:
-            fields.append(mk_field(("holder-flat", "flat_in", None, True), True, next(fid), "field" if kind == "dataclass" else "annotated", role="flat", inner=inner_name))
+            fields.append(mk_field(("holder-flat", "flat_in", None, True), total if kind == "typeddict" else True, next(fid), "field" if kind == "dataclass" else "annotated", role="flat", inner=inner_name))
     elif structure == "depreq":
         # dependent_required needs two non-required fields
         if len(fields) < 2:
@@ -260,12 +260,13 @@ FIRE = set()
 """
 
 
-def _meta_parts(f, desc=True):
+def _meta_parts(f, desc=True, annotated=False):
     parts = []
     if f["alias"] is not None and f["override"]:
         parts.append(f"alias({f['alias']!r})")
     elif f["alias"] is not None:
-        parts.append(f"alias({f['alias']!r}, override=False)" if f["id"] % 2 else f"alias({f['alias']!r}) | alias(override=False)")
+        # (the `|` form yields a plain dict -- dict.__or__ shadows Metadata.__or__ -- which is unhashable inside Annotated)
+        parts.append(f"alias({f['alias']!r}, override=False)" if f["id"] % 2 or annotated else f"alias({f['alias']!r}) | alias(override=False)")
     elif not f["override"]:
         parts.append("alias(override=False)")
     if f["role"] == "flat":
@@ -296,7 +297,7 @@ def emit_class(cls, by_name):
         lines.append(f"class {cls['name']}(TypedDict{'' if cls['total'] else ', total=False'}):")
     for f in cls["fields"]:
         tp = "int" if f["role"] == "plain" else f["inner"]
-        parts = _meta_parts(f)
+        parts = _meta_parts(f, annotated=not (k == "dataclass" and f["meta"] == "field"))
         if k == "dataclass" and f["meta"] == "field":
             args = []
             if not f["required"]:
@@ -318,7 +319,7 @@ def emit_class(cls, by_name):
             how = [f"@validator({f['name']!r})", f"@validator(field={f['name']!r})"][j % 2]
             if f["meta"] == "field" and (not f["required"] or _meta_parts(f)) and f["id"] % 2:
                 how = f"@validator({f['name']})"  # the dataclasses.Field object itself
-            body += [f"    {how}", f"    def vf_{f['id']}(self):", f"        if 'vf:{f['id']}' in FIRE:",
+            body += [f"    {how}", f"    def vf_{f['id']}(self):", f"        if 'vf:{f['id']}' in FIRE and self.{f['name']} is not None:",
                      f"            raise ValidationError(['§vf:{f['id']}'])"]
     for m in cls["methods"]:
         deco = "serialized" if m["how"] == "serialized" else "resolver"
